@@ -487,8 +487,18 @@ def run_analysis(impl: Impl, rng, surface: str) -> tuple[str | None, str]:
         elif which == 5:
             roughness.roughness_metric(k)
         elif which == 6:
-            bs.select_batch(k, 3, rng.choice(['Lowest', 'Monotonic', 'Barrier', 'Topographical']),
-                            False, 0.5, [])
+            # with and without an exclusion list (the selectors take their scan window from the ALLOWED part of the
+            # network: transition states of excluded minima may lie far above it), fixed and free batch size
+            excl = [] if rng.random() < 0.4 else sorted(rng.sample(range(k.n_minima), rng.randrange(1, max(2, k.n_minima))))
+            if rng.random() < 0.3 and k.n_minima > 1:
+                excl = list(bs.get_excluded_minima(k, energy_cutoff=float(np.median(
+                    [k.get_minimum_energy(i) for i in range(k.n_minima)])), penalise_edge=False, coords=coords,
+                    penalise_similarity=False, proximity_measure=0.1, known_points=None))
+            before = list(excl)
+            bs.select_batch(k, rng.choice([1, 2, 3]), rng.choice(['Lowest', 'Monotonic', 'Barrier', 'Topographical']),
+                            rng.random() < 0.5, rng.choice([0.05, 0.5, 2.0]), excl)
+            if list(excl) != before:
+                return "analysis select_batch changed the caller's exclusion list", name
         elif which == 7:
             for i in range(k.n_minima):
                 pot.gradient(k.get_minimum_coords(i))
@@ -566,7 +576,84 @@ def atomic_analyses_predicate(seed: int) -> tuple[str, str, dict] | None:
     return None
 
 
+def merge_isolation_predicate(seed: int) -> tuple[str, str, dict] | None:
+    """two networks stay two stores: after `target.add_network(source)` (into an empty or a non-empty target, the
+    multiprocessing scripts merge their workers' networks into a fresh master) editing either one leaves every stored
+    number, the numbering and the counts of the other exactly as they were"""
+    import random
+    from topsearch.data.coordinates import StandardCoordinates
+    from topsearch.data.kinetic_transition_network import KineticTransitionNetwork
+    from topsearch.similarity.similarity import StandardSimilarity
+    rng = random.Random(seed)
+
+    def grow(k, n, shift):
+        for i in range(n):
+            k.add_minimum(np.array([shift + 0.7 * i + rng.random() * 0.1, rng.uniform(-1.5, 1.5)]), rng.uniform(-2, 0) - i)
+        for _ in range(rng.randrange(0, n + 1)):
+            u, v = rng.randrange(n), rng.randrange(n)
+            k.add_ts(np.array([rng.uniform(-2.5, 2.5), rng.uniform(-1.5, 1.5)]), rng.uniform(1, 3), u, v)
+
+    def snap(k):
+        return (k.n_minima, k.n_ts, sorted(int(x) for x in k.G.nodes),
+                [(k.get_minimum_coords(i).tobytes(), float(k.get_minimum_energy(i))) for i in range(k.n_minima)
+                 if i in k.G.nodes],
+                sorted((min(int(u), int(v)), max(int(u), int(v)), k.G[u][v]["coords"].tobytes(), float(k.G[u][v]["energy"]))
+                       for u, v in k.G.edges()),
+                np.asarray(k.pairlist).tolist())
+
+    def coherent(k):
+        return sorted(int(x) for x in k.G.nodes) == list(range(k.n_minima)) and k.n_ts == k.G.number_of_edges()
+
+    def edit(k):
+        what = rng.choice(["addmin", "addts", "rmmin", "rmts"])
+        if what == "addmin" or k.n_minima < 2:
+            k.add_minimum(np.array([rng.uniform(-2.9, 2.9), rng.uniform(-1.9, 1.9)]), rng.uniform(-5, -3))
+        elif what == "addts":
+            k.add_ts(np.array([rng.uniform(-2.9, 2.9), rng.uniform(-1.9, 1.9)]), rng.uniform(3, 4),
+                     rng.randrange(k.n_minima), rng.randrange(k.n_minima))
+        elif what == "rmmin":
+            k.remove_minimum(rng.randrange(k.n_minima))
+        elif k.n_ts > 0:
+            u, v = rng.choice(list(k.G.edges()))
+            k.remove_ts(u, v)
+        return what
+
+    coords = StandardCoordinates(ndim=2, bounds=[(-3.0, 3.0), (-2.0, 2.0)])
+    sim = StandardSimilarity(0.05, 0.1)
+    src, tgt = KineticTransitionNetwork(), KineticTransitionNetwork()
+    grow(src, rng.choice([1, 2, 3, 4]), -2.5)
+    n_tgt = rng.choice([0, 0, 1, 3])
+    if n_tgt:
+        grow(tgt, n_tgt, 0.4)
+    if rng.random() < 0.3:
+        tgt.reset_network()
+        n_tgt = 0
+    tgt.add_network(src, sim, coords)
+    info = {"merge_seed": seed, "target_minima_before": n_tgt}
+    if not coherent(tgt) or not coherent(src):
+        return ("merge:incoherent", f"after merging {src.n_minima} minima into a network of {n_tgt}: numbering/counts of "
+                f"target {sorted(tgt.G.nodes)}/{tgt.n_minima}/{tgt.n_ts} or source are incoherent", info)
+    for who, (a, b) in (("source", (src, tgt)), ("target", (tgt, src))) * 2:
+        before = snap(b)
+        for _ in range(rng.randrange(1, 4)):
+            what = edit(a)
+            if snap(b) != before:
+                other = "target" if who == "source" else "source"
+                return ("merge:shared-store", f"after add_network (target had {n_tgt} minima), `{what}` on the {who} network "
+                        f"changed the {other} network's stored data / numbering / counts", info)
+            if not coherent(a) or not coherent(b):
+                return ("merge:incoherent", f"after add_network and `{what}` on the {who} network a network's counts no "
+                        f"longer equal what it stores", info)
+    return None
+
+
 def predicates(ctx: Ctx) -> None:
+    for sd in range(ctx.seed * 1000, ctx.seed * 1000 + ctx.scale(40, 300)):
+        r = merge_isolation_predicate(sd)
+        ctx.stats.case({"stream": "predicate-merge-isolation", "seed": sd}, True)
+        if r:
+            ctx.fail(r[0], r[1], r[2])
+            break
     rng = ctx.rng
     for _ in range(ctx.scale(4, 20)):
         sd = rng.randrange(1 << 30)
@@ -640,6 +727,11 @@ def replay(ctx: Ctx, data: dict) -> bool:
     ops = [tuple(tuple(x) if isinstance(x, list) and x and isinstance(x[0], list) else x for x in o)
            for o in data.get("raw_ops", [])]
     ops = [tuple(o) for o in ops]
+    if "merge_seed" in data:
+        r = merge_isolation_predicate(int(data["merge_seed"]))
+        if r:
+            print(f"  {r[0]}: {r[1]}")
+        return r is None
     if "atomic_seed" in data:
         r = atomic_analyses_predicate(int(data["atomic_seed"]))
         if r:
